@@ -154,6 +154,15 @@ func (fr *Frame) assertsAfterNamed(x *ssa.Call, calleeName string, same func(*ss
 			}
 			return base(name, ce)
 		}
+		if a.Lemma {
+			inst, err := fr.u.v.lemmaInstance(env, a.C.E.(*ECall))
+			if err != nil {
+				fr.u.errs = append(fr.u.errs, fmt.Sprintf("%s: lemma instance %s: %v (contract.attach)", a.C.Where, a.C.Src, err))
+				continue
+			}
+			fr.assume(inst)
+			continue
+		}
 		t, err := env.evalBool(a.C.E)
 		if err != nil {
 			fr.u.errs = append(fr.u.errs, fmt.Sprintf("%s: assert %s: %v (contract.attach)", a.C.Where, a.C.Src, err))
@@ -1298,4 +1307,31 @@ func (fr *Frame) permuteRows(hdr *Val, el types.Type) {
 		fr.assume(Forall([]*Term{j}, Implies(out, Eq(Select(nr, j), Select(oldRows[kd], j)))))
 		fr.st.setRow(kd, hdr.Ref, nr)
 	}
+}
+
+// lemmaInstance: the statement of lemma call.Fun with its parameters replaced by the values of the
+// argument expressions in env (the lemma itself is discharged as part of every property that uses it).
+func (v *Verifier) lemmaInstance(env *Env, call *ECall) (*Term, error) {
+	l := v.lib.Lemmas[call.Fun]
+	if l == nil || len(call.Args) != len(l.Params) {
+		return nil, fmt.Errorf("unknown lemma or wrong arity")
+	}
+	lenv, lvars := v.lib.paramEnv(l.Params, "", true)
+	stmt, err := lenv.evalBool(l.Stmt)
+	if err != nil {
+		return nil, err
+	}
+	m := map[*Term]*Term{}
+	k := 0
+	for i, p := range l.Params {
+		cv, err := env.safeEval(call.Args[i])
+		if err != nil {
+			return nil, err
+		}
+		for _, t := range env.coerceTo(cv, p.Type) {
+			m[lvars[k]] = t
+			k++
+		}
+	}
+	return skolemizeHyp(Subst(stmt, m)), nil
 }
